@@ -263,7 +263,8 @@ class VerticaQueryBuilder(QueryBuilder):
         sql = super().get_sql(*args, **kwargs)
 
         if self._hint is not None:
-            sql = "".join([sql[:7], "/*+label({hint})*/".format(hint=self._hint), sql[6:]])
+            start = 1 if sql.startswith("(") else 0
+            sql = "".join([sql[: start + 7], "/*+label({hint})*/".format(hint=self._hint), sql[start + 6 :]])
 
         return sql
 
